@@ -72,6 +72,99 @@ def expected_key_ranges(widths, io_byte):
     return out
 
 
+def key_length_filters(ctx, rule, fname, tail, exact=False):
+    """F40: the index keys have no delimiter after the variable-length script args, so `key.starts_with(prefix)` also
+    holds for keys of a script with shorter args whose big-endian block number continues the searched args with zero
+    bytes (and, for an exact script, for keys of scripts with longer args).  Every scan that selects records by
+    `starts_with` must therefore pass only keys of length >= prefix + tail (== for an exact script) on to the code that
+    slices the key from its end: the take_while(starts_with) result may only flow into a `filter` whose closure compares
+    the key length with prefix length + `tail`."""
+    P = ctx.prog
+    F = ctx.body(fname)
+    du = DefUse(F)
+    scans, lens = {}, {}
+    for c in P.closures_of(F, transitive=False):
+        tag = re.search(r'\[closure@([^\]]+)\]', c.sig_args)
+        if not tag:
+            continue
+        tag = tag.group(1)
+        calls = [(k, t) for _, k, t in P.call_keys(c)]
+        ret_calls = [k for k, t in calls if t.dest and t.dest.strip() == '_0']
+        if any(k == 'slice::starts_with' for k, t in calls):
+            scans[tag] = c
+        for blk in c.blocks.values():
+            if blk.cleanup:
+                continue
+            for st in blk.stmts:
+                if st.kind != 'assign' or st.lhs.strip() != '_0':
+                    continue
+                m = re.match(r'^(Ge|Eq|Le)\((.*), (.*)\)$', st.rhs.strip())
+                if not m:
+                    continue
+                cdu = DefUse(c)
+                sides = [cdu.origins(x, stop_at_calls=False) for x in (m.group(2), m.group(3))]
+                keylen = [any(o[0] == 'call' and o[1] == 'slice::len' for o in sd) for sd in sides]
+                # the other side: <prefix length> + tail
+                vals = set()
+                for blk2 in c.blocks.values():
+                    for s2 in blk2.stmts:
+                        mm = re.match(r'^CheckedAdd\((.*), (.*)\)$', (s2.rhs or '').strip())
+                        if mm:
+                            for o in (mm.group(1), mm.group(2)):
+                                lit = re.fullmatch(r'const (\d+)_usize', o.strip())
+                                if lit:
+                                    vals.add(int(lit.group(1)))
+                                elif o.strip() == 'const _':
+                                    for e in s2.extra:
+                                        for nm in re.findall(r'Unevaluated\(([A-Z][A-Z0-9_]*),', e):
+                                            v = P.consts.get(nm, {}).get('value')
+                                            if v is not None:
+                                                vals.add(v)
+                op = m.group(1)
+                good_op = (op == 'Eq') if exact else ((op == 'Ge' and keylen[0]) or (op == 'Le' and keylen[1]) or op == 'Eq')
+                if any(keylen) and good_op and tail in vals:
+                    lens[tag] = c
+    ctx.floor(rule, 'index scans selecting by starts_with in ' + fname, len(scans), 1)
+    for bid, k, t in P.call_keys(F):
+        if not k.endswith('Iterator>::take_while'):
+            continue
+        stag = [g for g in scans if t.callee.rstrip().endswith('::take_while::<[closure@%s]>' % g)]
+        if not stag:
+            continue
+        ctx.fn(scans[stag[0]])
+        # every use of the take_while result is a `filter` with a length closure
+        dest = t.dest.strip()
+        direct = [(b2, k2, t2) for b2, k2, t2 in P.call_keys(F) if t2.args and any(_flows(du, F, dest, a) for a in t2.args)]
+        okc = bool(direct) and all(k2.endswith('Iterator>::filter') and any(t2.callee.rstrip().endswith('::filter::<[closure@%s]>' % g) for g in lens) for b2, k2, t2 in direct)
+        ctx.ob(rule, fname, 'records selected by starts_with(prefix) are used only when the key length is %s prefix + %d' % ('==' if exact else '>=', tail), okc,
+               at=t.span, consumers=[k2 for _, k2, _ in direct],
+               failing_history=None if okc else 'scripts A and A|00 registered (e.g. anyone-can-pay with minimum 0): a cell of A in a block below 2^56 has the key '
+               'prefix(A)|00..: it starts with prefix(A|00) and is returned for A|00; rollback_to_block parses it with shifted offsets (index out of bounds)')
+
+
+def _flows(du, F, dest, arg):
+    """`arg` is `dest` or a plain move/copy chain from it"""
+    a = arg.replace('move ', '').replace('copy ', '').strip()
+    seen = set()
+    while a not in seen:
+        seen.add(a)
+        if a == dest:
+            return True
+        nxt = None
+        for blk in F.blocks.values():
+            if blk.cleanup:
+                continue
+            for st in blk.stmts:
+                if st.kind == 'assign' and st.lhs.strip() == a:
+                    m = re.fullmatch(r'(?:move |copy )?(_\d+)', st.rhs.strip())
+                    if m:
+                        nxt = m.group(1)
+        if nxt is None:
+            return False
+        a = nxt
+    return False
+
+
 def run(ctx):
     P = ctx.prog
     ctx.explanation, ctx.not_decided = EXPLANATION, NOT_DECIDED
@@ -176,6 +269,10 @@ def run(ctx):
                         consts.add(int(m.group(1)))
     ctx.ob('C13.r4', BQ.name, 'skip is 0 without a cursor and 1 with one', consts == {0, 1}, got=sorted(consts))
 
+    # r6 (F40): prefix aliasing between scripts whose args extend each other with the bytes of the block number
+    key_length_filters(ctx, 'C13.r6', GC, 16)
+    key_length_filters(ctx, 'C13.r6', GCC, 16)
+    key_length_filters(ctx, 'C13.r6', GT, 17)
     # r5 seek keys: where an un-cursored query starts iterating
     seek_keys(ctx, BQ)
     # reviewed reference (engine/census.py)
